@@ -14,6 +14,7 @@ from trie.exceptions import (
 from trie.fog import HexaryTrieFog, TrieFrontierCache
 
 from ..core import HarnessError, Violation, deep, hx, unhx
+from ..simdb import STORE_FLAVOURS
 from ..hgen import HistoryGen, make_pool, make_values, probe_keys, rare_huge
 from ..hworld import HWorld
 from ..models.mpt import RefMPT, bytes_of, nibbles_of
@@ -387,7 +388,7 @@ def generate(rng):
     for i in range(nw):
         cmds.append({"op": "walk_finish", "w": i, "qs": [list(gen_query(rng, pool)) for _ in range(rng.choice([1, 3, 5]))]})
     pinned = [int(rng.random() < 0.35) for _ in range(nw)]
-    return {"prop": ID, "cfg": {"prune": prune, "cache": cache, "walkers": walkers, "pinned": pinned, "store": rng.choice(["min", "min", "dict"])}, "cmds": cmds}
+    return {"prop": ID, "cfg": {"prune": prune, "cache": cache, "walkers": walkers, "pinned": pinned, "store": rng.choice(STORE_FLAVOURS)}, "cmds": cmds}
 
 
 def explore(rng, st):
